@@ -11,9 +11,11 @@ import (
 	"encoding/hex"
 	"fmt"
 	"io"
+	"strings"
 
 	"github.com/sirupsen/logrus"
 	"hop.computer/hop/authgrants"
+	"hop.computer/hop/certs"
 	"hop.computer/hop/tubes"
 	"verifharness/hv"
 	xw "verifharness/hvxwire"
@@ -61,7 +63,7 @@ func valueCase(r *hv.Rand, f *xw.Format, v xw.Value, class string) (encoded []by
 		vd = bad("C18:"+f.Name+"-rejects-representable", "encoder refused a representable value")
 	}
 	hv.Emit(hv.Case{Fn: f.EncFn, Coq: hv.Tuple(f.Coq(v), hv.Ni(o.Code), xw.CoqBytes(o.Bytes)), Class: f.Name + "/" + class,
-		Desc: "encode " + f.Desc(v) + " #" + ident(o.Bytes), Spec: vd.ok, Sig: vd.sig, What: vd.what, NT: len(o.Bytes) >= 2 || o.Code != xw.OK,
+		Desc: encNote(class) + "encode " + f.Desc(v) + " #" + ident(o.Bytes), Spec: vd.ok, Sig: vd.sig, What: vd.what, NT: len(o.Bytes) >= 2 || o.Code != xw.OK,
 		Replay: map[string]interface{}{"format": f.Name, "op": "encode", "value": f.Desc(v), "coq_value": trunc(f.Coq(v))}})
 	if o.Code != xw.OK {
 		return nil
@@ -83,8 +85,12 @@ func valueCase(r *hv.Rand, f *xw.Format, v xw.Value, class string) (encoded []by
 	case d.Rem != len(rest)+f.Trail:
 		vd = bad("C18:"+f.Name+"-roundtrip", "decoder consumed %d bytes too many/few after the encoding", len(rest)+f.Trail-d.Rem)
 	}
-	hv.Emit(hv.Case{Fn: f.DecFn, Coq: decTuple(f, in, d), Class: f.Name + "/roundtrip",
-		Desc: "decode(encode) " + f.Desc(v) + " #" + ident(in), Spec: vd.ok, Sig: vd.sig, What: vd.what, NT: true,
+	rtClass, rtNote := f.Name+"/roundtrip", ""
+	if strings.HasPrefix(class, "modify-") {
+		rtClass, rtNote = f.Name+"/roundtrip-"+class, "["+class+"] "
+	}
+	hv.Emit(hv.Case{Fn: f.DecFn, Coq: decTuple(f, in, d), Class: rtClass,
+		Desc: rtNote + "decode(encode) " + f.Desc(v) + " #" + ident(in), Spec: vd.ok, Sig: vd.sig, What: vd.what, NT: true,
 		Replay: map[string]interface{}{"format": f.Name, "op": "decode", "hex": hex.EncodeToString(clip(in))}})
 	return o.Bytes
 }
@@ -115,6 +121,13 @@ func bytesCase(r *hv.Rand, f *xw.Format, b []byte, class string) {
 	hv.Emit(hv.Case{Fn: f.DecFn, Coq: decTuple(f, b, d), Class: f.Name + "/" + class,
 		Desc: "decode " + f.Name + " #" + ident(b), Spec: vd.ok, Sig: vd.sig, What: vd.what, NT: len(b) >= 2,
 		Replay: map[string]interface{}{"format": f.Name, "op": "decode", "hex": hex.EncodeToString(clip(b))}})
+}
+
+func encNote(class string) string {
+	if strings.HasPrefix(class, "modify-") {
+		return "[" + class + "] "
+	}
+	return ""
 }
 
 func clip(b []byte) []byte {
@@ -172,6 +185,72 @@ func runFormat(r *hv.Rand, f *xw.Format, nValues, mutPerValue, nRandom int) {
 			b[0] = hv.Pick(r, []byte{0, 1, 2, 3, 4, 5})
 		}
 		bytesCase(r, f, b, "random")
+	}
+}
+
+// ---------------------------------------------------------------- modify after parse
+
+// modifyAfterParse: certificates, intents and AgMessages obtained by decoding (or encoded once
+// before) get one field changed and are then put through the same value laws as every other
+// value: the encoding must be that of the current fields (model comparison), decode back to the
+// modified value, and unrepresentable fields must be refused.
+func modifyAfterParse(r *hv.Rand) {
+	reparse := func(f *xw.Format, v xw.Value) xw.Value { // a value of the same fields that came out of the real decoder
+		o := xw.RunEnc(f, v)
+		if o.Code != xw.OK {
+			return nil
+		}
+		d := xw.RunDec(f, o.Bytes)
+		if d.Code != xw.OK {
+			return nil
+		}
+		return d.V
+	}
+	for _, base := range xw.Cert.Sweep() {
+		for _, e := range xw.CertEdits() {
+			// (a) parsed, then modified
+			if v := reparse(xw.Cert, base); v != nil {
+				e.Do(v.(*certs.Certificate))
+				valueCase(r, xw.Cert, v, "modify-after-parse/"+e.Name)
+			}
+			// (b) built, encoded once, then modified
+			c := *base.(*certs.Certificate)
+			xw.RunEnc(xw.Cert, &c)
+			e.Do(&c)
+			valueCase(r, xw.Cert, &c, "modify-after-encode/"+e.Name)
+			// (c) parsed twice over (decode of a re-encoding), then modified
+			if v := reparse(xw.Cert, base); v != nil {
+				if w := reparse(xw.Cert, v); w != nil {
+					e.Do(w.(*certs.Certificate))
+					valueCase(r, xw.Cert, w, "modify-after-reparse/"+e.Name)
+				}
+			}
+		}
+	}
+	for _, base := range xw.Intent.Sweep() {
+		for _, e := range xw.IntentEdits() {
+			if v := reparse(xw.Intent, base); v != nil {
+				e.Do(v.(*authgrants.Intent))
+				valueCase(r, xw.Intent, v, "modify-after-parse/"+e.Name)
+			}
+			i := *base.(*authgrants.Intent)
+			xw.RunEnc(xw.Intent, &i)
+			e.Do(&i)
+			valueCase(r, xw.Intent, &i, "modify-after-encode/"+e.Name)
+		}
+	}
+	for _, base := range xw.Ag.Sweep() {
+		m0 := base.(*authgrants.AgMessage)
+		if m0.MsgType != authgrants.IntentRequest && m0.MsgType != authgrants.IntentCommunication {
+			continue
+		}
+		for _, e := range xw.IntentEdits() {
+			if v := reparse(xw.Ag, base); v != nil {
+				m := v.(*authgrants.AgMessage)
+				e.Do(&m.Data.Intent)
+				valueCase(r, xw.Ag, m, "modify-after-parse/"+e.Name)
+			}
+		}
 	}
 }
 
@@ -412,6 +491,7 @@ func main() {
 	for _, p := range plans {
 		runFormat(r, p.f, p.nv, p.mut, p.rnd)
 	}
+	modifyAfterParse(r)
 	frames(r)
 	for _, n := range []int{0, 1, 2, 255, 256, 1000, 65534, 65535, 65536, 65537, 65541, 70000} {
 		enc := valueCase(r, relMsg, xw.Pattern(n, byte(r.Intn(256))), "value")
